@@ -87,7 +87,23 @@ func (w *World) Exec(op Op) bool {
 	if w.failed {
 		return false
 	}
+	w.lenSeed = uint64(op.A)*31 + uint64(op.C)
 	switch op.K {
+	case OMark:
+		if w.Tx != nil {
+			if !w.End(OClose) {
+				return false
+			}
+		}
+		w.tracef("MARK %d", op.A)
+		return true
+	case OProbe:
+		if w.Tx != nil || w.Cfg.MaxPages == 0 {
+			return true
+		}
+		n, ok := w.Probe()
+		w.tracef("probe -> %d", n)
+		return ok
 	case OBegin:
 		if w.Tx != nil {
 			if !w.End(OClose) {
